@@ -7,12 +7,14 @@
    exactly the matches in the first component together with the shifted
    matches in the second, each once (a match never straddles components and
    is not influenced by the other component - ring membership, ring counts,
-   neighbour counts and stereo are local).  PARTIAL: the lift from matches to
-   the descriptor dictionary (centre assignment, naming, remaps) is decided
+   neighbour counts and stereo are local); the mixture is decomposable iff every
+   component is and each atom keeps its centre (C04_centres_of_mixture).
+   PARTIAL: the last step to the descriptor dictionary (naming, counting,
+   remaps, the update of groups by descriptors) is decided
    on the implementation by the mixture oracle of this check. *)
 From Coq Require Import List NArith ZArith QArith Arith Bool.
 From Coq Require Import Permutation.
-From PG Require Import Common.Strs Ring.Peg Ring.Reader Ring.Reader_proofs Graph.Mol Graph.Match Graph.Match_proofs Graph.Embed Graph.Embed_inst Graph.Scheme Graph.SchemeLoad Graph.Scheme_proofs Gen.Schemes.
+From PG Require Import Common.Strs Ring.Peg Ring.Reader Ring.Reader_proofs Graph.Mol Graph.Match Graph.Match_proofs Graph.Embed Graph.Embed_inst Graph.Centres_proofs Graph.Centres_equiv Graph.Scheme Graph.SchemeLoad Graph.Scheme_proofs Gen.Schemes.
 Import ListNotations.
 
 (* no shipped pattern or descriptor has a molecule-level prefix (part of scheme_ok) *)
@@ -62,6 +64,17 @@ Proof.
   destruct (read_fragment_connected elements xlower t f H) as [C N].
   apply matches_union_count; auto. eapply read_fragment_wf; eauto.
 Qed.
+
+(* one level up: the mixture is decomposable iff every component is, and then each atom keeps the centre and
+   peripheral names it has in its own component (so a pair of decomposable components always decomposes) *)
+Theorem C04_centres_of_mixture : forall m1 m2 sch, wf_mol m1 -> wf_mol m2 -> wf_rings m1 -> wf_rings m2 ->
+  (forall p, In p (s_patterns sch) -> good_frag (p_frag p)) ->
+  ((exists NM, assign_centres sch (union m1 m2) = SOk NM) <->
+   (exists nm1, assign_centres sch m1 = SOk nm1) /\ (exists nm2, assign_centres sch m2 = SOk nm2))
+  /\ (forall NM nm1 nm2, assign_centres sch (union m1 m2) = SOk NM -> assign_centres sch m1 = SOk nm1 ->
+        assign_centres sch m2 = SOk nm2 -> NM = nm1 ++ nm2).
+Proof. intros m1 m2 sch W1 W2 R1 R2. exact (assign_centres_union m1 m2 W1 W2 R1 R2 sch). Qed.
+Print Assumptions C04_centres_of_mixture.
 
 (* non-vacuity: two one-atom "molecules", the pattern C matches once in each *)
 Example C04_union_example :
